@@ -192,7 +192,18 @@ class SDict(Model):
             return Builtin('dict.items', items)
         if name == 'keys':
             return Builtin('dict.keys', lambda it_, a, k: SList(self.L, lambda r: self.key_at(it_, r)))
+        if name == 'copy':
+            return Builtin('dict.copy', lambda it_, a, k: self.clone(it_))
         raise Unsupported("dict method %s on a symbolic dict" % name)
+
+    def clone(self, it):
+        """dict(d) / d.copy(): a new dict object with the same keys (same insertion order) and values; later writes to either do
+        not reach the other (the components are immutable z3 terms, so sharing them is a copy)"""
+        it.ctx.note_trusted("dict(d) / d.copy(): a new dict with the same items in the same order")
+        c = SDict.__new__(SDict)
+        c.hint = self.hint + '_copy'
+        c.L, c.Dom, c.Val, c.Pos, c.KN, c.KK = self.L, self.Dom, self.Val, self.Pos, self.KN, self.KK
+        return c
 
     def fresh_like(self, it, hint):
         return SDict(it, hint)
